@@ -1,5 +1,6 @@
 SPECIFICATION MCSpec
 CONSTANTS
+  AllSchedules = TRUE
   PermuteModules = FALSE
   MaxFields = 2
   Addrs <- Q2Addrs
